@@ -114,7 +114,7 @@ where
     type Output = T;
 
     fn filter(&mut self, input: T) -> Self::Output {
-        let old_mean = self.state.mean.clone().unwrap_or_else(|| input.clone());
+        let old_mean = self.state.mean.clone().unwrap_or_else(T::zero);
         let old_weight = self.state.weight.clone();
 
         #[allow(clippy::option_if_let_else)]
